@@ -619,6 +619,112 @@ def check_edit_indices(ctx):
             ctx.trace_ok()
 
 
+# ---------------------------------------------------------------------------------------------
+# construction history (spec/ModelSession.tla)
+def session_catalogue():
+    U = lambda lo, hi, g: prior.Uniform(lo, hi, guess=g)
+    kw = dict(medium_index=1.33, illum_wavelen=0.66, illum_polarization=(1, 0), noise_sd=0.1)
+
+    def big():
+        # two spheres with every argument free + scaling: 11 parameters (indices reach two digits)
+        s0 = Sphere(n=U(1.4, 1.7, 1.51), r=U(0.3, 0.8, 0.52), center=(U(0, 3, 1.03), U(0, 3, 1.04), U(4, 9, 5.05)))
+        s1 = Sphere(n=U(1.4, 1.7, 1.56), r=U(0.3, 0.8, 0.57), center=(U(20, 23, 21.08), U(0, 3, 1.09), U(4, 9, 5.10)))
+        return AlphaModel(Spheres([s0, s1], warn=False), alpha=U(0.5, 1.0, 0.811), theory=H["Mie"](), **kw)
+    return [
+        lambda: AlphaModel(Sphere(n=1.59, r=U(0.3, 0.8, 0.5), center=(1.0, 1.0, 5.0)), alpha=U(0.5, 1.0, 0.7), **kw),
+        lambda: ExactModel(Sphere(n=1.59, r=U(0.3, 0.8, 0.5), center=(1.0, 1.0, 5.0)), **kw),
+        lambda: AlphaModel(Sphere(n=U(1.4, 1.7, 1.5), r=0.5, center=(1.0, 1.0, 5.0)), alpha=0.8, **kw),
+        big,
+        lambda: ExactModel(RigidCluster(Spheres([Sphere(n=1.59, r=0.5, center=(0.0, 0.0, 0.0)),
+                                                 Sphere(n=1.5, r=0.4, center=(2.0, 0.0, 0.0))], warn=False),
+                                        rotation=(0.3, 0.4, U(0, 3, 1.1)), translation=(U(0, 3, 1.2), 1.0, 10.0)),
+                           theory=H["Mie"](), **kw),
+        lambda: AlphaModel(Sphere(n=1.59, r=0.5, center=(1.0, 1.0, U(4, 9, 5.0))),
+                           alpha={'red': U(0.5, 1.0, 0.6), 'green': U(0.5, 1.0, 0.9)}, medium_index=1.33,
+                           illum_wavelen={'red': 0.66, 'green': 0.52}, illum_polarization=(1, 0), noise_sd=0.1),
+    ]
+
+
+def describe_model(model):
+    """names in order, text form, and where each value of a test vector lands"""
+    import io as _io
+    from holopy.core.io import serialize
+    b = _io.BytesIO()
+    serialize.save(b, model)
+    names = list(model._parameter_names)
+    vals = {n: p.guess * (1 + 0.001 * (i + 1)) for i, (n, p) in enumerate(zip(names, model._parameters))}
+    sc = model.scatterer_from_parameters(vals)
+    b2 = _io.BytesIO()
+    serialize.save(b2, sc)
+    lst = model.ensure_parameters_are_listlike(vals)
+    mm = H["read_map"](model._maps['model'], lst)
+    return {"names": names, "text": b.getvalue().decode(), "placed": b2.getvalue().decode(),
+            "model_map": repr(sorted((k, repr(v)) for k, v in mm.items()))}
+
+
+def job_describe(idx):
+    return describe_model(session_catalogue()[idx - 1]())
+
+
+def place_check(ctx):
+    """value-to-place mapping of the 11-parameter model against the names (independent of history)"""
+    model = session_catalogue()[3]()
+    names = list(model._parameter_names)
+    vals = {n: 1.0 + (i + 1) / 16.0 for i, n in enumerate(names)}
+    sc = model.scatterer_from_parameters(vals)
+    lst = model.ensure_parameters_are_listlike(vals)
+    got = {}
+    for k, m in enumerate(sc.scatterers):
+        got["%d:n" % k], got["%d:r" % k] = m.n, m.r
+        for j in range(3):
+            got["%d:center.%d" % (k, j)] = m.center[j]
+    got["alpha"] = H["read_map"](model._maps['model'], lst)['alpha']
+    ctx.case(("place", "two_spheres_all_free", len(names)), nontrivial=True)
+    bad = {n: (got.get(n), vals[n]) for n in names if not (n in got and float(got[n]) == vals[n])}
+    if sorted(names) != sorted(got) or bad:
+        ctx.violation("session/placement/%d_parameters" % len(names), {"names": names, "wrong": {k: list(map(float, v)) for k, v in bad.items()}})
+    else:
+        ctx.trace_ok()
+
+
+def model_sessions(ctx, rng, quick):
+    import isolate
+    from concurrent.futures import ThreadPoolExecutor
+    n = len(session_catalogue())
+    g = ctx.tlc_graph("ModelSession", "ModelSession.cfg", constants={"NEntries": n, "MaxBuilds": 2 if quick else 3})
+    with ThreadPoolExecutor(n) as ex:
+        base = [r[0] for r in ex.map(lambda i: isolate.run_jobs([("c11:job_describe", {"idx": i})]), range(1, n + 1))]
+    fresh = {}
+    for i, r in enumerate(base):
+        if r is None or r["outcome"] != "returned":
+            raise harness.MachineryError("fresh-process model description %d failed: %r" % (i + 1, r))
+        fresh[i + 1] = r["result"]
+    seqs = sorted({tuple(st["log"]) for st in g.states.values() if len(st["log"]) >= 1})
+    if not any(len(q) >= 2 for q in seqs):
+        raise harness.MachineryError("ModelSession graph has no sequence of two constructions")
+    cat = session_catalogue()
+    for seq in seqs:
+        ctx.case(("session", seq), nontrivial=len(seq) >= 2)
+        ok = True
+        for c in seq:
+            try:
+                d = describe_model(cat[c - 1]())
+            except Exception as e:
+                ctx.violation("session/exception", {"sequence": list(seq), "entry": c, "exc": repr(e)[:200]})
+                ok = False
+                break
+            diff = [k for k in d if d[k] != fresh[c][k]]
+            if diff:
+                ctx.violation("session/model_depends_on_history/%s" % ",".join(diff),
+                              {"sequence": list(seq), "entry": c, "names": d["names"], "fresh_names": fresh[c]["names"]})
+                ok = False
+                break
+        if ok:
+            ctx.trace_ok()
+    place_check(ctx)
+    ctx.notes["model_sessions"] = len(seqs)
+
+
 def run(ctx):
     quick = ctx.tier == "quick"
     rng = random.Random(ctx.seed)
@@ -632,6 +738,7 @@ def run(ctx):
                        "theory_from_parameters / _find_optics / read_map(model map)",
                        "value equality of priors is HoloPy's own == after renamed(None)"]
     check_edit_indices(ctx)
+    model_sessions(ctx, rng, quick)
     groups = {}
     sizes = [4] if quick else [4, 6]
     for n in sizes:
